@@ -415,7 +415,7 @@ func c17Run(t *testing.T, run *Run, sc c17Scenario) {
 				continue
 			}
 			allGood, tie := true, false
-			var th time.Duration
+			th := rec.Issue // no target may have been probed at all (a deploy refused before creating targets)
 			for _, tg := range c.Targets {
 				fg := time.Duration(-1)
 				for _, p := range w.Target(tg.Name).ProbeLog() {
@@ -452,6 +452,22 @@ func c17Run(t *testing.T, run *Run, sc c17Scenario) {
 					for _, n := range ex.prevSlot {
 						disp = append(disp, disposed{n, rec.Ret, "replaced"})
 					}
+				}
+				continue
+			}
+			if c.Conflict && !allGood {
+				// both refused by a host conflict and unable to become healthy: it must fail, and no
+				// later than the deploy timeout; which of the two reasons is reported first is not fixed
+				if rec.Err == "" {
+					fail("conflict-accepted", "deploy of %s onto the host of s1 succeeded", c.Svc)
+					return
+				}
+				if took > c.DeployTO+Eps {
+					fail("deploy-exceeds-bound", "failing %s took %v, deploy-timeout %v", c.Kind, took, c.DeployTO)
+					return
+				}
+				for _, tg := range c.Targets {
+					disp = append(disp, disposed{tg.Name, rec.Ret, "failed deploy (host conflict)"})
 				}
 				continue
 			}
